@@ -24,9 +24,10 @@ import (
 
 type c02Case struct {
 	Kind    string            `json:"kind"`
-	Files   map[string]string `json:"files"`   // relative path -> content; repository root = world root
-	Targets []string          `json:"targets"` // files to lint, in order
-	Repo    bool              `json:"repo"`    // world root is a repository
+	Files   map[string]string `json:"files"`           // relative path -> content; repository root = world root
+	Targets []string          `json:"targets"`         // files to lint, in order
+	Repo    bool              `json:"repo"`            // world root is a repository
+	Repos   []string          `json:"repos,omitempty"` // further repository roots relative to the world root
 	Repeats int               `json:"repeats"`
 }
 
@@ -65,6 +66,9 @@ func checkDeterminism(c *c02Case) (key, msg string, collide bool) {
 	defer w.Cleanup()
 	if c.Repo {
 		w.Repo("")
+	}
+	for _, rp := range c.Repos {
+		w.Repo(rp)
 	}
 	for p, s := range c.Files {
 		w.Write(p, s)
@@ -379,6 +383,12 @@ func TestC02(t *testing.T) {
 				c.Files[name] = ye.Emit(w.Root, g.Layout())
 				c.Targets = append(c.Targets, name)
 			}
+			run(rt, c, true)
+		})
+		// several repositories (own configuration, local actions, reusable workflows) in one invocation
+		r.Check(t, "multi-repository", hx.N(60, 2000), func(rt *rapid.T) {
+			w10, _ := genC10World(rt)
+			c := &c02Case{Kind: "multi-repository", Files: w10.Files, Repos: w10.Repos, Targets: w10.Args}
 			run(rt, c, true)
 		})
 		// several files of one run sharing a broken local action / reusable workflow ("reported once per run")
